@@ -53,3 +53,4 @@ pub fn run() -> i32 {
     println!("selftest ok: virtual clock effective; window-partition oracle agrees with brute force on {checked} inputs");
     0
 }
+
